@@ -59,6 +59,7 @@ import (
 	"path/filepath"
 	"regexp"
 	"sort"
+	"strconv"
 	"strings"
 	"sync"
 	"time"
@@ -98,7 +99,40 @@ var alphabet = []elem{
 type entrySpec struct {
 	Msg    string      `json:"msg"`
 	Fields [][2]string `json:"fields,omitempty"` // (name, value) pairs
-	Desc   string      `json:"desc"`
+	// Kinds, when set, gives the Go type the value of the field is logged with (parallel to Fields):
+	// "" string, "int", "uint", "float", "bool", "error" (what Acra's own log calls pass: ports,
+	// counters, session ids, durations, log.WithError)
+	Kinds []string `json:"kinds,omitempty"`
+	Desc  string   `json:"desc"`
+}
+
+// typed converts the textual value of a field to the Go value that is logged.
+func typed(kind, v string) interface{} {
+	switch kind {
+	case "int":
+		n, err := strconv.ParseInt(v, 10, 64)
+		if err != nil {
+			ev.Fatalf("menu: %q is no int64", v)
+		}
+		return n
+	case "uint":
+		n, err := strconv.ParseUint(v, 10, 64)
+		if err != nil {
+			ev.Fatalf("menu: %q is no uint64", v)
+		}
+		return n
+	case "float":
+		f, err := strconv.ParseFloat(v, 64)
+		if err != nil {
+			ev.Fatalf("menu: %q is no float64", v)
+		}
+		return f
+	case "bool":
+		return v == "true"
+	case "error":
+		return errors.New(v)
+	}
+	return v
 }
 
 var benign = entrySpec{Msg: "m", Desc: "m"}
@@ -110,7 +144,7 @@ var benign2 = entrySpec{Msg: "n", Desc: "n"}
 // menu: 16 messages without field, 16 field names (value "v"), 16 field values (name "f"), two
 // word-like values, a last-sorting field with empty / blank value,
 // the two look-alike pairs chain=new / chain=end, and one entry with two fields (a, integrity):
-// 51 entries (message "m" without field is the benign entry).
+// and six values of other Go types: 57 entries (message "m" without field is the benign entry).
 func buildMenu() []entrySpec {
 	var m []entrySpec
 	for _, a := range alphabet {
@@ -136,6 +170,17 @@ func buildMenu() []entrySpec {
 	// then ends with this field), with an empty and with a blank value
 	m = append(m, entrySpec{Msg: "m", Fields: [][2]string{{"zz", ""}}, Desc: "lastfield:empty"})
 	m = append(m, entrySpec{Msg: "m", Fields: [][2]string{{"zz", " "}}, Desc: "lastfield:blank"})
+	// values that are not strings
+	for _, t := range []struct{ desc, name, kind, v string }{
+		{"typed:int", "f", "int", "12"},
+		{"typed:int-beyond-2^53", "f", "int", "9007199254740993"},
+		{"typed:uint-max", "f", "uint", "18446744073709551615"},
+		{"typed:float", "f", "float", "0.25"},
+		{"typed:bool", "f", "bool", "true"},
+		{"typed:error-two-lines", "error", "error", "syntax error\nLINE 1: x"},
+	} {
+		m = append(m, entrySpec{Msg: "m", Fields: [][2]string{{t.name, t.v}}, Kinds: []string{t.kind}, Desc: t.desc})
+	}
 	return m
 }
 
@@ -312,8 +357,12 @@ func produce(s script) (p *produced) {
 				e := s.Entries[i]
 				if len(e.Fields) > 0 {
 					fl := logrus.Fields{}
-					for _, kv := range e.Fields {
-						fl[kv[0]] = kv[1]
+					for fi, kv := range e.Fields {
+						if fi < len(e.Kinds) {
+							fl[kv[0]] = typed(e.Kinds[fi], kv[1])
+						} else {
+							fl[kv[0]] = kv[1]
+						}
 					}
 					logrus.WithFields(fl).Info(e.Msg)
 				} else {
